@@ -27,7 +27,7 @@ type c11r struct{ base }
 
 func init() {
 	runner.Register(&c11{base{id: "C11", level: "exploration",
-		rule: "three monitors over concurrent workloads on ONE client (both adapters). (1) race detector: the -race build runs 2-16 goroutines issuing every exported client method and helper (data ops, batch ops, Create/Delete/Update/DescribeTable on a small name pool, AddTable/AddIndex/ClearTable, failure toggles, ActivateDebug, ActivateNativeInterpreter, SetInterpreter, GetNativeInterpreter, SetItemCollectionMetrics, TransactWriteItems), repeated; every 'WARNING: DATA RACE' block or fatal 'concurrent map' error with a minidyn frame is a violation (signature = pair of outermost client entry points). (2) conservation: N concurrent 'ADD c :1' => c = N; N racing attribute_not_exists puts with unique payloads => exactly one succeeds and its payload is stored; N racing CreateTable(same name) => exactly one succeeds; create/delete ping-pong => ok-creates - ok-deletes in {0,1} = table exists; concurrent k-item batches vs Scans => every Scan sees 0 or k items of a batch. (3) linearizability: many short histories (2-4 goroutines x 3-5 ops) with unique written values, invoke/return timestamps taken at the client boundary from one monotonic clock, yield/sleep policy installed at the verifhook sites, checked with porcupine against the sequential reference model (catalogue + tables + failure switch); a call that does not return within the watchdog is a deadlock. non-trivial = at least two operations of different goroutines overlapped in time on the same table; distinct by (profile, adapter, event-order fingerprint).",
+		rule: "three monitors over concurrent workloads on ONE client (both adapters). (1) race detector: the -race build runs 2-16 goroutines issuing every exported client method and helper (data ops, batch ops, Create/Delete/Update/DescribeTable on a small name pool, AddTable/AddIndex/ClearTable, failure toggles, ActivateDebug, ActivateNativeInterpreter, SetInterpreter, GetNativeInterpreter, SetItemCollectionMetrics, TransactWriteItems), repeated; plus workloads in which every goroutine has its OWN client (model-checked histories and native-interpreter dispatch: state shared between instances); every 'WARNING: DATA RACE' block or fatal 'concurrent map' error with a minidyn frame is a violation (signature = pair of outermost client entry points). (2) conservation: N concurrent 'ADD c :1' => c = N; N racing attribute_not_exists puts with unique payloads => exactly one succeeds and its payload is stored; N racing CreateTable(same name) => exactly one succeeds; create/delete ping-pong => ok-creates - ok-deletes in {0,1} = table exists; concurrent k-item batches vs Scans => every Scan sees 0 or k items of a batch; k-item batch writes / reads vs goroutines toggling the emulated failures => every batch is applied completely or not at all and applied + unprocessed = k. (3) linearizability: many short histories (2-4 goroutines x 3-5 ops) with unique written values, invoke/return timestamps taken at the client boundary from one monotonic clock, yield/sleep policy installed at the verifhook sites, checked with porcupine against the sequential reference model (catalogue + tables + failure switch); a call that does not return within the watchdog is a deadlock. non-trivial = at least two operations of different goroutines overlapped in time on the same table; distinct by (profile, adapter, event-order fingerprint).",
 		assumptions: append([]string{"interleavings are sampled, not covered; the race detector reports unsynchronised access pairs from the happens-before relation of the executions it saw", "porcupine v1.3.0 is trusted as the history checker"}, commonAssumptions...)}})
 	runner.Register(&c11r{base{id: "C11R", level: "exploration", rule: "race-detector workload of C11", assumptions: commonAssumptions}})
 }
@@ -62,9 +62,68 @@ func hookHitCounts() map[string]int {
 
 func c11RaceCases(tier string) int {
 	if tier == "thorough" {
-		return 240
+		return 240 + 60
 	}
-	return 32
+	return 32 + 8
+}
+
+func c11SharedClientRaceCases(tier string) int { return c11RaceCases(tier) - c11OwnClientRaceCases(tier) }
+func c11OwnClientRaceCases(tier string) int {
+	if tier == "thorough" {
+		return 60
+	}
+	return 8
+}
+
+// ownClients: every goroutine has its OWN client (as tests running with t.Parallel() do). The race detector
+// watches for package-level state shared between client / interpreter instances; in addition every goroutine
+// checks its sequential history against its own model, so interference shows functionally as well.
+func (p *c11r) ownClients(x *res, idx int, ctx *runner.Ctx) {
+	r0 := mon.Rng(ctx.Seed, "C11RO", idx)
+	goroutines := []int{2, 4, 8}[idx%3]
+	seeds := make([]int64, goroutines)
+	for g := range seeds {
+		seeds[g] = r0.Int63()
+	}
+	results := make([]*res, goroutines)
+	if idx%2 == 1 {
+		// native-interpreter dispatch on own clients (C20's oracle)
+		(&c20{}).parallelClients(x, idx, ctx)
+		x.r.Counters["race_workload_own_client_dispatch_cases"]++
+		return
+	}
+	ok := parallel(goroutines, func(g int) {
+		xi := newRes()
+		results[g] = xi
+		r := rand.New(rand.NewSource(seeds[g]))
+		adapter := adapt.Adapters[(idx/2+g)%2]
+		cl := adapt.New(adapter)
+		m := model.New()
+		w := opWeights{mgmt: 3, helpers: 2, data: 10, search: 4, batch: 2, fail: 1, noBatchGet: true}
+		hist := []adapt.Op{}
+		for i := 0; i < 150; i++ {
+			op := genOp(r, m, w, i)
+			hist = append(hist, op)
+			got := cl.Do(op)
+			if ds := m.Step(op, got); len(ds) > 0 && ds[0].Rule != "model-gap" && !strings.Contains(ds[0].Rule, "~") {
+				xi.viol("own-client:"+ds[0].Rule, op.Kind, fmt.Sprintf("[%s] goroutine %d of %d, each with its own client, step %d %s: %s", adapter, g, goroutines, i, mon.OpFeature(op), ds[0].Detail),
+					map[string]interface{}{"adapter": adapter, "history": hist})
+				return
+			}
+		}
+		xi.r.Evals += 150
+	})
+	if !ok {
+		x.viol("deadlock", "own-clients", fmt.Sprintf("%d goroutines with their own clients did not finish", goroutines), nil)
+		return
+	}
+	for _, xi := range results {
+		if xi != nil {
+			x.merge(xi)
+		}
+	}
+	x.r.Counters["race_workload_own_client_ops"] += goroutines * 150
+	x.fp(true, "race-own|%d|%d", goroutines, idx)
 }
 
 func (p *c11r) NumCases(tier string) int { return c11RaceCases(tier) }
@@ -130,6 +189,10 @@ func raceOp(r *rand.Rand, cl adapt.Client, g, i int) {
 func (p *c11r) RunCase(ctx *runner.Ctx) runner.CaseResult {
 	x := newRes()
 	installHooks(yieldPolicy)
+	if ctx.Case >= c11SharedClientRaceCases(ctx.Tier) {
+		p.ownClients(x, ctx.Case-c11SharedClientRaceCases(ctx.Tier), ctx)
+		return x.r
+	}
 	r0 := mon.Rng(ctx.Seed, "C11R", ctx.Case)
 	adapter := adapt.Adapters[ctx.Case%2]
 	goroutines := []int{2, 4, 8, 16}[(ctx.Case/2)%4]
@@ -168,9 +231,9 @@ func (p *c11r) RunCase(ctx *runner.Ctx) runner.CaseResult {
 
 func c11ConsCases(tier string) int {
 	if tier == "thorough" {
-		return 600
+		return 720
 	}
-	return 100
+	return 120
 }
 
 func c11LinCases(tier string) int {
@@ -210,7 +273,7 @@ func (p *c11) conservation(x *res, ctx *runner.Ctx) {
 	n := mon.Pick(r, []int{2, 3, 8, 16, 64})
 	spec := adapt.TableSpec{Name: "tbl11", Hash: "h", Billing: "PAY_PER_REQUEST", Indexes: []adapt.IndexSpec{{Name: "gsi1", Hash: "g"}}}
 	key := val.Item{"h": val.Str("k")}
-	kind := []string{"add", "condput", "create", "pingpong", "batch-vs-scan"}[(ctx.Case/2)%5]
+	kind := []string{"add", "condput", "create", "pingpong", "batch-vs-scan", "batch-vs-failure-toggle"}[(ctx.Case/2)%6]
 	wit := map[string]interface{}{"adapter": adapter, "goroutines": n, "monitor": kind}
 	x.fp(true, "cons|%s|%s|%d", kind, adapter, n)
 	x.r.Counters["conservation:"+kind]++
@@ -347,6 +410,112 @@ func (p *c11) conservation(x *res, ctx *runner.Ctx) {
 		x.r.Evals += n * 9
 		if torn > 0 {
 			x.viol("batch-not-atomic", kind, fmt.Sprintf("[%s] %d scans observed a half-applied BatchWriteItem, e.g. %v", adapter, torn, tornDetail.Load()), wit)
+		}
+	case "batch-vs-failure-toggle":
+		// writers issue batches of k unique items (and, SDK v2, batch reads of k stored items) while other
+		// goroutines switch the emulated failures on and off. A batch call is atomic with respect to the
+		// switch: the failure condition is either on or off for the WHOLE call - all k requests applied and
+		// none unprocessed, or none applied (all k unprocessed under internal-server failure, an error under
+		// the forced / deprecated one); applied + unprocessed = k in every case.
+		cl, _, _ := freshClient(adapter, spec)
+		k := 12
+		for j := 0; j < k; j++ {
+			cl.Do(adapt.Op{Kind: adapt.OpPut, Table: spec.Name, Item: val.Item{"h": val.Str(fmt.Sprintf("stored-%d", j)), "g": val.Str("x")}})
+		}
+		type bres struct {
+			id     string
+			class  string
+			unproc int
+		}
+		var mu sync.Mutex
+		results := []bres{}
+		var tornGets int64
+		var tornGetDetail atomic.Value
+		writers := n / 2
+		if writers < 1 {
+			writers = 1
+		}
+		if !parallel(n, func(i int) {
+			if i < writers {
+				for b := 0; b < 8; b++ {
+					id := fmt.Sprintf("w%d-b%d", i, b)
+					batch := []adapt.BatchEntry{}
+					for j := 0; j < k; j++ {
+						batch = append(batch, adapt.BatchEntry{Table: spec.Name, Put: val.Item{"h": val.Str(fmt.Sprintf("%s-%d", id, j)), "batch": val.Str(id), "g": val.Str("x")}})
+					}
+					o := cl.Do(adapt.Op{Kind: adapt.OpBatchWrite, Batch: batch})
+					mu.Lock()
+					results = append(results, bres{id, o.Class, len(o.Unproc)})
+					mu.Unlock()
+					if adapter == "v2" {
+						gets := []adapt.BatchEntry{}
+						for j := 0; j < k; j++ {
+							gets = append(gets, adapt.BatchEntry{Table: spec.Name, Del: val.Item{"h": val.Str(fmt.Sprintf("stored-%d", j))}})
+						}
+						g := cl.Do(adapt.Op{Kind: adapt.OpBatchGet, Gets: gets})
+						if g.Class == adapt.ClsOK {
+							if got := len(g.Resp[spec.Name]); got != 0 && got != k {
+								atomic.AddInt64(&tornGets, 1)
+								tornGetDetail.Store(fmt.Sprintf("BatchGetItem of %d stored keys returned %d items and %d unprocessed keys", k, got, len(g.UnprocK[spec.Name])))
+							}
+						}
+					}
+				}
+				return
+			}
+			rr := rand.New(rand.NewSource(int64(ctx.Case*100 + i)))
+			for s := 0; s < 60; s++ {
+				switch rr.Intn(5) {
+				case 0:
+					cl.Do(adapt.Op{Kind: adapt.OpEmulate, Fail: "internal_server"})
+				case 1:
+					cl.Do(adapt.Op{Kind: adapt.OpEmulate, Fail: "deprecated"})
+				case 2:
+					cl.Do(adapt.Op{Kind: adapt.OpForceOn})
+				default:
+					cl.Do(adapt.Op{Kind: adapt.OpEmulate, Fail: "none"})
+				}
+				runtime.Gosched()
+			}
+		}) {
+			x.viol("deadlock", kind, fmt.Sprintf("[%s] batches vs failure toggles did not return", adapter), wit)
+			return
+		}
+		cl.Do(adapt.Op{Kind: adapt.OpEmulate, Fail: "none"})
+		sc := cl.Do(adapt.Op{Kind: adapt.OpScan, Table: spec.Name})
+		per := map[string]int{}
+		for _, it := range sc.Items {
+			if b, ok := it["batch"]; ok {
+				per[b.Str]++
+			}
+		}
+		x.r.Evals += len(results)*2 + n*60
+		applied, refused := 0, 0
+		for _, br := range results {
+			written := per[br.id]
+			bad := ""
+			switch {
+			case written != 0 && written != k:
+				bad = fmt.Sprintf("%d of its %d requests were applied", written, k)
+			case br.class == adapt.ClsOK && written+br.unproc != k:
+				bad = fmt.Sprintf("%d applied + %d unprocessed != %d requests", written, br.unproc, k)
+			case br.class != adapt.ClsOK && written != 0:
+				bad = fmt.Sprintf("the call failed with %s but %d requests were applied", br.class, written)
+			}
+			if written == k {
+				applied++
+			} else {
+				refused++
+			}
+			if bad != "" {
+				x.viol("batch-not-atomic", kind, fmt.Sprintf("[%s] BatchWriteItem %s (class %s, %d unprocessed) raced with failure toggles: %s", adapter, br.id, br.class, br.unproc, bad), wit)
+				break
+			}
+		}
+		x.r.Counters["toggle_batches_applied"] += applied
+		x.r.Counters["toggle_batches_refused"] += refused
+		if tornGets > 0 {
+			x.viol("batch-not-atomic", kind+"/get", fmt.Sprintf("[%s] %d BatchGetItem calls were torn by a failure toggle, e.g. %v", adapter, tornGets, tornGetDetail.Load()), wit)
 		}
 	}
 }
